@@ -130,9 +130,14 @@ func verifyRawCerts(rawCerts [][]byte, certHashes []multihash.DecodedMultihash) 
 	if err != nil {
 		return err
 	}
-	// TODO: is this the best (and complete?) way to identify RSA certificates?
+	// RSA is not allowed, neither as the certificate's key nor as the issuer's signature
+	// (PKCS #1 v1.5 or PSS).
+	if cert.PublicKeyAlgorithm == x509.RSA {
+		return errors.New("cert uses RSA")
+	}
 	switch cert.SignatureAlgorithm {
-	case x509.SHA1WithRSA, x509.SHA256WithRSA, x509.SHA384WithRSA, x509.SHA512WithRSA, x509.MD2WithRSA, x509.MD5WithRSA:
+	case x509.SHA1WithRSA, x509.SHA256WithRSA, x509.SHA384WithRSA, x509.SHA512WithRSA, x509.MD2WithRSA, x509.MD5WithRSA,
+		x509.SHA256WithRSAPSS, x509.SHA384WithRSAPSS, x509.SHA512WithRSAPSS:
 		return errors.New("cert uses RSA")
 	}
 	if l := cert.NotAfter.Sub(cert.NotBefore); l > 14*24*time.Hour {
